@@ -1,6 +1,7 @@
 pub mod conv;
 pub mod engine;
 pub mod exact;
+pub mod fuzz;
 pub mod gen;
 pub mod props;
 pub mod refgeom;
